@@ -165,7 +165,7 @@ CUR = [None]  # the engine (symbolic or concrete replay) of the running instance
 def W(E, key="catalog"):
     CUR[0] = E
     cfg = Cfg({"array.rechunk.method": "tasks", "array.unify-chunks-policy": "auto", "array.unify-chunks-limit": None,
-               "array.slicing.split-large-chunks": None})
+               "array.slicing.split-large-chunks": None, "array.chunk-size-tolerance": 1.25})
     w = world(key, E.symbolic, MODS, nodes=True, desugar=(EX, CU, DB),
               extra=dict(config=cfg, warnings=_Warn(), plan_rechunk=lambda old, new, *a, **k: [new], meta_from_array=_meta_from_array,
                          concatenate3=concatenate_nested),
@@ -406,12 +406,12 @@ def p_arange(w, E, step, blocks):
     return Prog(node, ref, {})
 
 
-def p_sliding_sum(w, E, p, axis, keepdims=False):
+def p_sliding_sum(w, E, p, axis, keepdims=False, tag="window"):
     """sliding_window_view(x, W, axis).sum(-1) through the public functions; W in 2..3 (the rewrite reads int(W))"""
     import z3
     from symx.core import _z
 
-    W_ = int(E.int("window", 2, 3))  # forks: the rewrite reads int(W) and the kernel sums a window-long axis
+    W_ = int(E.int(tag, 2, 3))  # forks: the rewrite reads int(W) and the kernel sums a window-long axis
     n = p.node.shape[axis]
     E.assume(n >= W_)
     coll = w.fn(NC, "new_collection")(p.node)
@@ -571,7 +571,11 @@ def p_map2(w, a, b, op=np.add):
     out = w.fn("dask_array._map_blocks", "map_blocks")(op, ca, cb, dtype=np.dtype("f8"), meta=np.empty((0,) * nd))
     dsk = dict(a.dsk)
     dsk.update(b.dsk)
-    return Prog(out.expr, op(a.ref, b.ref), dsk)
+    ref = op(a.ref, b.ref)
+    carried = [r.lemmas for r in (a.ref, b.ref) if getattr(r, "lemmas", None) is not None and tuple(r.shape) == tuple(ref.shape)]
+    if carried:
+        ref.lemmas = lambda idx: [f for lem in carried for f in lem(idx)]  # same index space as the operands
+    return Prog(out.expr, ref, dsk)
 
 
 def _map_blocks_with_column(w, E):
@@ -716,6 +720,15 @@ def _add_concrete(w, E, cx, cy, policy="auto"):
     x = source(w, E, "x", (len(cx),), chunks=[tuple(cx)])
     y = source(w, E, "y", (len(cy),), chunks=[tuple(cy)])
     return p_elemwise(w, operator.add, x, y)
+
+
+def _map2_over_sliding(w, E):
+    """map_blocks(np.add, r, y) with r = sliding_window_view(x, W).sum(-1) over single-element chunks (advertised as one block,
+    computed natively on the input's own chunks) and y chunked like r advertises: blocks are paired by position"""
+    x = source(w, E, "x", (4,), chunks=[(1, 1, 1, 1)])
+    r = p_sliding_sum(w, E, x, 0)
+    y = source(w, E, "y", (len(r.node.chunks[0]),), chunks=[tuple(r.node.chunks[0])])
+    return p_map2(w, r, y)
 
 
 def p_view(w, E, p, dtype, order="C"):
@@ -875,6 +888,10 @@ def programs(tier):
     reg("x2x2.T+y1x1(rechunk inserted by lowering over a transpose)", lambda w, E: _add_T_coarse(w, E), 4)
     reg("sliding_window_view(x3,W,0).sum(-1)", lambda w, E: p_sliding_sum(w, E, source(w, E, "x", (3,)), 0), 12)
     reg("sliding_window_view(x3,2,0)", lambda w, E: p_sliding_view(w, E, source(w, E, "x", (3,)), (2,), (0,)), 8)
+    # a separable 2-d rolling sum: the inner reduction's own native rewrite changes the chunks the outer one was planned against
+    reg("sliding_window_view(sliding_window_view(x2x2,W,1).sum(-1),V,0).sum(-1)",
+        lambda w, E: p_sliding_sum(w, E, p_sliding_sum(w, E, source(w, E, "x", (2, 2), chunks=[(2, 2), (3, 3)]), 1), 0, tag="window2"), 14)
+    reg("map_blocks(np.add,sliding_window_view(x[1,1,1,1],W).sum(-1),y)", _map2_over_sliding, 4)
     reg("sliding_window_view(x3,2,0)[a:b]", lambda w, E: p_slice(w, p_sliding_view(w, E, source(w, E, "x", (3,)), (2,), (0,)), raw_index(E, (F,))), 12)
     reg("sliding_window_view(x2,(2,2),(0,0))", lambda w, E: p_sliding_view(w, E, source(w, E, "x", (2,)), (2, 2), (0, 0)), 8)
     reg("diag(x2)", lambda w, E: p_diag(w, E, source(w, E, "x", (2,))), 2)
